@@ -434,9 +434,15 @@ def XSheet.ok (rels : List (String × String)) (s : XSheet) : Prop :=
   rels.lookup s.rid = some s.target ∧ kindOfPath Gen.xlsxKindTable (xlsxPath s.target.toList) = some s.kind ∧
   (s.writeState = false → s.vis = .visible)
 
-def ridKeyOk (k : String) : Prop := (afterColon k.toList).isSome = true ∧ localName k = "id"
+/-- a legal spelling of the relationship-id attribute: a prefix other than `xmlns`, local name `id` -/
+def ridKeyOk (k : String) : Prop := relIdKey k
 
-def QOk (q : String → String) : Prop := ∀ s, localName (q s) = s
+/-- the element names of the main namespace that occur in `workbookEvents` -/
+def xlsxNames : List String := ["workbook", "workbookPr", "sheets", "sheet", "definedNames", "definedName", "extLst"]
+
+/-- `q` qualifies the element names of the workbook part with some prefix — or with none (`q = id`): the local name of
+    `q n` is `n` for every name that occurs -/
+def QOk (q : String → String) : Prop := ∀ n ∈ xlsxNames, localName (q n) = n
 
 /-- the text of a defined name: its character data concatenated, text and CDATA alike -/
 def dnValue (n : String × List (Bool × String)) : String × String := (n.1, n.2.foldl (fun acc c => acc ++ c.2) "")
